@@ -459,6 +459,18 @@ pub fn run_c09(cfg: &Config) -> i32 {
 		rep
 	});
 	total.merge(rep);
+	// values with a history: canonicalized, edited in place, canonicalized again (must equal the form of the edited content)
+	let n_hist = cfg.budget(20_000, 1_000_000);
+	let rep = parallel(cfg.threads, shards, |i| {
+		let mut rep = Report::new();
+		let mut rng = Rng::new(seed).fork(0xc09e + i as u64);
+		for _ in 0..(n_hist / shards as u64).max(1) {
+			c10_edit_sequences(&mut rep, &mut rng, "C09");
+		}
+		rep.count("family:values-with-a-history", (n_hist / shards as u64).max(1));
+		rep
+	});
+	total.merge(rep);
 	// deeply nested documents with non-canonical numbers and unordered keys at every level
 	{
 		let mut rep = Report::new();
@@ -877,7 +889,7 @@ fn edit_in_place(rng: &mut Rng, v: &mut Value, counter: &mut u32) -> bool {
 
 /// canonicalize, edit in place, canonicalize again: the result must be the
 /// canonical form of the edited content (no memo of a previous pass may survive an edit).
-fn c10_edit_sequences(rep: &mut Report, rng: &mut Rng) {
+fn c10_edit_sequences(rep: &mut Report, rng: &mut Rng, id: &str) {
 	let r = gen_ijson(rng, 0);
 	let mut v = from_rval(&r);
 	let mut counter = 0u32;
@@ -902,7 +914,7 @@ fn c10_edit_sequences(rep: &mut Report, rng: &mut Rng) {
 			Ok((c, got)) => {
 				if got != want {
 					rep.violation(
-						"C10:stale-after-edit",
+						format!("{}:stale-after-edit", id),
 						format!("after canonicalize + in-place edits the content is {} ; canonicalizing it gives `{}`, expected `{}`", show(doc_of(&content).as_bytes()), show(got.as_bytes()), show(want.as_bytes())),
 						json!({"sub": "jcs", "value_compact": doc_of(&content), "history": log}),
 					);
@@ -973,7 +985,7 @@ pub fn run_c10(cfg: &Config) -> i32 {
 		let mut rng = Rng::new(seed).fork(0xc12e + i as u64);
 		let mut rd = Reader::new();
 		for k in 0..(n / shards as u64).max(1) {
-			c10_edit_sequences(&mut rep, &mut rng);
+			c10_edit_sequences(&mut rep, &mut rng, "C10");
 			if k % 64 == 0 {
 				// depth 100..200: every level holds non-canonical numbers and keys out of order
 				let depth = rng.range(100, 200);
